@@ -329,7 +329,7 @@ class Exec:
         if isinstance(tgt, ast.Name):
             s2 = st.fork()
             k = self.local_kinds.get(tgt.id)
-            if k:
+            if k and k != "any":  # "any": the sidecar lets the value keep its own shape (JSON records)
                 v = self.co(v, k, st, f"local:{tgt.id}")
             s2.vars[tgt.id] = v
             s2.undefined = s2.undefined - {tgt.id}
@@ -982,10 +982,24 @@ class Exec:
     def ev_Dict(self, e, st):
         keys = []
         for k in e.keys:
+            if k is None:
+                keys.append(None)  # {**other, ...}: the other record's fields, in order, overridden by later keys
+                continue
             if not (isinstance(k, ast.Constant) and isinstance(k.value, str)):
                 raise Unsupported("dict display with non-constant keys")
             keys.append(k.value)
-        return [(VRec(dict(zip(keys, vals))), s) for vals, s in self.ev_list(e.values, st)]
+        out = []
+        for vals, s in self.ev_list(e.values, st):
+            fields = {}
+            for k, v in zip(keys, vals):
+                if k is None:
+                    if not isinstance(v, VRec):
+                        raise Unsupported("** of something that is not a record with constant keys")
+                    fields.update(v.fields)
+                else:
+                    fields[k] = v
+            out.append((VRec(fields), s))
+        return out
 
     def ev_UnaryOp(self, e, st):
         out = []
@@ -1449,6 +1463,8 @@ class Exec:
                         key = vals[0]
                         if isinstance(key, VStrConst) and key.s in recv.fields:
                             out.append((recv.fields[key.s], s2))
+                        elif isinstance(key, VStrConst) and len(vals) == 1:
+                            out.append((VNone(), s2))  # a key the record does not have
                         else:
                             raise Unsupported("record .get")
                     continue
